@@ -123,7 +123,7 @@ pub fn tlog(s: String) {
 }
 
 macro_rules! interp {
-    ($modname:ident, $($rcpath:tt)+) => {
+    ($modname:ident, $align:literal, $($rcpath:tt)+) => {
         pub mod $modname {
             use $($rcpath)+::{Rc, Weak};
             use super::{tlog, DOp, NV};
@@ -133,6 +133,7 @@ macro_rules! interp {
             use std::hash::{Hash, Hasher};
             use std::mem::MaybeUninit;
 
+            #[repr(align($align))]
             pub struct V {
                 tag: Cell<u32>,
                 kids: RefCell<Vec<Rc<V>>>,
@@ -515,8 +516,11 @@ macro_rules! interp {
     };
 }
 
-interp!(on_cactus, cactusref);
-interp!(on_std, std::rc);
+interp!(on_cactus, 8, cactusref);
+interp!(on_std, 8, std::rc);
+// the same programs on an over-aligned payload (padding between header and value)
+interp!(on_cactus_a64, 64, cactusref);
+interp!(on_std_a64, 64, std::rc);
 
 pub struct DiffResult {
     pub ops: usize,
@@ -527,11 +531,19 @@ pub struct DiffResult {
     pub coverage: Vec<(String, u64)>,
 }
 
-pub fn run_diff(prog: &[DOp]) -> DiffResult {
+pub fn run_diff(prog: &[DOp], over_aligned: bool) -> DiffResult {
     TRANSCRIPT.with(|t| t.borrow_mut().clear());
-    on_cactus::run(prog);
+    if over_aligned {
+        on_cactus_a64::run(prog);
+    } else {
+        on_cactus::run(prog);
+    }
     let a = TRANSCRIPT.with(|t| std::mem::take(&mut *t.borrow_mut()));
-    on_std::run(prog);
+    if over_aligned {
+        on_std_a64::run(prog);
+    } else {
+        on_std::run(prog);
+    }
     let b = TRANSCRIPT.with(|t| std::mem::take(&mut *t.borrow_mut()));
     let drops = b.iter().filter(|l| l.contains("~drop(")).count();
     let mut mismatch = None;
